@@ -58,15 +58,19 @@ structure St where
   limit : Nat                -- `execution_limit` (ns)
   deriving Repr, DecidableEq
 
-/-- `ExecutionTimeout::new`; `rate` is the first-interval constant (`10_000_000.0` with debug
-assertions, `100_000_000.0` without), `now` the clock reading taken by `new`. `Duration / 10`
-is the floor of the nanosecond count. -/
-def new (F : TOps) (rate : UInt64) (limit now : Nat) : St :=
+/-- `ExecutionTimeout::new`; `rate` is the first-interval baseline constant (`10_000_000.0` with
+debug assertions, `100_000_000.0` without), `cap` the bound on the FIRST interval (`100.0` since
+0c1b674: `first_interval_instruction_count.min(100.0)`, so that the real instruction rate is
+measured early; every later interval is derived from the measured rate), `now` the clock reading
+taken by `new`. `Duration / 10` is the floor of the nanosecond count. The deadline is
+`now + limit` (the code uses `checked_add` and falls back to a far-future deadline when the sum is
+not representable; for limits in the property's range it is). -/
+def new (F : TOps) (rate cap : UInt64) (limit now : Nat) : St :=
   let isec := secsF F (limit / 10)
   { lastCheck := now
     deadline := now + limit
     intervalSeconds := isec
-    intervalInstr := asUsize F (F.mul rate isec)
+    intervalInstr := asUsize F (fmin F (F.mul rate isec) cap)
     sinceLast := 0
     limit := limit }
 
